@@ -11,7 +11,7 @@ From J5V.lib Require Civil Decimal.
 From J5V.proofs Require CodecDecDecimal CodecDecTimeFast.
 From Coq Require Import Permutation.
 From J5V.model Require CodecDecCommute.
-From J5V.proofs Require CodecDecMsgSorted CodecDecReorder CodecDecLenient.
+From J5V.proofs Require CodecDecMsgSorted CodecDecReorder CodecDecLenient CodecDecOneofReorder.
 Import ListNotations.
 Local Open Scope N_scope.
 
@@ -499,7 +499,8 @@ Proof. repeat split; vm_compute; reflexivity. Qed.
 (* [lenient ty j j'] (proofs/CodecDecLenient.v): j' is obtained from j by ANY COMBINATION, AT ANY DEPTH, of
    - respelling leaves: two spellings that the field kind's conversion maps to the same result (L_scalar,
      L_enum: quoted / bare numbers, the four base64 forms, enum prefix, timestamps at any offset, ...),
-   - reordering the members of objects (L_object: a permutation),
+   - reordering the members of objects (L_object: a permutation) and of oneof bodies (L_oneof: a permutation
+     with at most one "!type" member),
    - adding explicit null members for properties of objects (L_object: nulls; for an object without
      members only below the nesting bound, hence the side condition),
    through arrays, maps, oneof arms and nested objects (insignificant whitespace is absorbed by the
@@ -539,6 +540,27 @@ Proof.
     apply CodecDecLenient.L_scalar; [reflexivity|reflexivity|split; discriminate|vm_compute; reflexivity]. }
   split; vm_compute; reflexivity.
 Qed.
+
+(* the same when the root type is a oneof: the body's members ("!type", the arm key, nulls) in any order,
+   at most one "!type", the arm value a lenient variant *)
+Theorem C03_lenient_oneof_documents_same_message :
+  forall orc e root props bs bs' ms ms1 ms' rest rest' me me' m',
+  CodecDecLenient.env_ok e -> lookup e root = Some (SOneof props) ->
+  lex bs = (tokens_of (JObj ms) ++ rest, me) -> lex bs' = (tokens_of (JObj ms') ++ rest', me') ->
+  Permutation ms ms1 -> (CodecDecOneofReorder.type_count ms <= 1)%nat ->
+  CodecDecLenient.lenient_members orc e props ms1 ms' ->
+  decode_bytes orc e root bs = Ok m' -> decode_bytes orc e root bs' = Ok m'.
+Proof. exact CodecDecLenient.lenient_document_oneof. Qed.
+Print Assumptions C03_lenient_oneof_documents_same_message.
+
+(* a oneof body in any order, from any state *)
+Theorem C03_reordered_oneof_same_message : forall orc e d props ms ms' m seen found c m'' f,
+  CodecDecReorder.props_commute e props -> Permutation ms ms' -> (CodecDecOneofReorder.type_count ms <= 1)%nat ->
+  CodecDecMsgSorted.wf m ->
+  tr_oneof orc e f d props ms m seen found c = Ok m'' ->
+  exists f', tr_oneof orc e f' d props ms' m seen found c = Ok m''.
+Proof. exact CodecDecOneofReorder.reordered_oneof. Qed.
+Print Assumptions C03_reordered_oneof_same_message.
 
 (* the schema condition is the computable check that every correspondence case runs on the real schemas *)
 Theorem C03_lenient_condition_decidable : forall e, CodecDecCommute.env_commute e = true -> CodecDecLenient.env_ok e.
